@@ -74,6 +74,9 @@ def swarm_config(rng, prop, tier, faults):
         # scheduling granularity: mean number of consecutive ops one task gets
         "burst": rng.choice((1, 1, 2, 4, 8)),
         "layouts": rng.random() < 0.3,
+        # C03 / C04 / C12 / C15: solvePDE on a deep copy of every affected variable after
+        # every op, judged by the property's own oracle (costly: a fraction of the runs)
+        "shadow": rng.random() < 0.3,
     }
 
 
